@@ -205,6 +205,9 @@ def run(rep, tier):
     rep.rule("R6", "dump() and dumps(): the marshaller's chunk sink is a local buffer converted to bytes by dumps(); what dump() writes to the file is dumps()'s result")
     rep.rule("R7", "the file-based reader (load): the type byte is decoded before it indexes the str-keyed dispatch table; r_byte/r_short/r_long/r_long64 "
                    "return the little-endian integer of the bytes read")
+    rep.rule("R10", "for a sample of every kind of the domain (None, bool, int, wide int, float, complex, bytes, text, tuple, list, dict, set, frozenset) the generic dump(), "
+                    "constructed through __init__, has no path that raises -- on the first write and when the same object is written again by the same marshaller "
+                    "(an object reachable twice in a nesting is legal and the host's marshal writes it twice)")
     rep.rule("R9", "the generic dump() sends a plain str to the text writer and every int to the multi-digit writer when no target or a Python 3 target is named "
                    "(the Python 2 routing applies to a named Python 2 target only)")
     rep.rule("R8", "TYPE_LONG in both readers: |size| 16-bit digits are read, digit i contributes digit << 15*i to an accumulator that starts at 0, and the result is "
@@ -618,6 +621,38 @@ def run(rep, tier):
             rep.ob("R9", dmp.qualname, "target=%s:%s(%s)-writer" % (label, tn, "big" if val == 2 ** 70 else "small" if tn == "int" else "plain"), reached[:1] == [want_w],
                    expected=want_w, derived=reached[:2],
                    msg="with python_version=%s a %s goes to %s: the host's marshal.loads then returns a different kind or value (text as bytes, wide ints truncated)" % (label, tn, reached[:1]))
+    # ---------------------------------------------------------------- R10 dump() accepts every kind of the domain, also when the same object is written again
+    ini = M.lookup("__init__")
+    samples = [("None", None), ("bool", True), ("int", 5), ("big-int", 2 ** 70), ("float", 1.5), ("complex", 1j), ("bytes", b"ab"), ("text", "abc"), ("tuple", (1, 2)), ("list", [1, 2]),
+               ("dict", {1: 2}), ("set", {1}), ("frozenset", frozenset([1]))]
+    n10 = 0
+    for pv, label in ((None, "None"), ((3, 12, 1), "3.12.1")):
+        for kind, val in samples:
+            def hook10(spec, name, fv, args, kw, node):
+                base = name.split(".")[-1]
+                if base.startswith("dump_") and name.startswith("xdis.marsh._Marshaller."):
+                    return None
+                return NotImplemented
+            me10 = Instance(M)
+            outcome = []
+            try:
+                if isinstance(ini, FuncRef):
+                    Spec(F).run(ini, [me10, Sym("WRITE")], dict(python_version=pv))
+                else:
+                    me10.attrs.update(_write=Sym("WRITE"), python_version=pv)
+                for rnd in ("first", "again"):
+                    sp10 = Spec(F, hooks=[hook10])
+                    o10 = sp10.run(dmp, [me10, val])
+                    for g_, l_ in leaves(o10):
+                        if isinstance(l_, Raise):
+                            outcome.append("%s write: raise %s%s" % (rnd, show(l_.exc)[:60] if hasattr(l_, "exc") else "", (" when " + " and ".join(show(c)[:50] for c in g_[-2:])) if g_ else ""))
+            except Exception as ex:
+                outcome.append("raises %s: %s" % (type(ex).__name__, str(ex)[:60]))
+            n10 += 1
+            rep.ob("R10", dmp.qualname, "target=%s:%s:accepted-each-time" % (label, kind), not outcome, expected="no raise on any path, on the first write and when the same object is written again",
+                   derived=outcome[:2] or "no raise",
+                   msg="dump() refuses a %s value (%s): a value of the property's kinds -- here one object reachable twice in the nesting -- is not written" % (kind, "; ".join(outcome[:1])))
+    rep.floor("kinds decided for acceptance by dump()", n10, 20)
     # ---------------------------------------------------------------- R8 multi-digit integers in both readers
     for C in (FU, UMC):
         long_reader_rule(rep, F, C, "R8")
